@@ -31,6 +31,8 @@ pub fn run(pid: &str, c: &Case) {
         "C18" => c18(c),
         "C05" => c05(c),
         "C03" => c03(c),
+        "C09" => c09(c),
+        "C16" => c16(c),
         _ => { println!("reproduced=false"); println!("error=unknown property {}", pid); }
     }
 }
@@ -134,5 +136,97 @@ fn c03(c: &Case) {
     let inputs_finite = j.iter().all(|x| x.is_finite()) && scale.is_finite() && o.off.iter().all(|x| x.is_finite());
     if inputs_finite && !fin { bad.push("non-finite forward".into()); }
     for b in &bad { println!("diff={}", b); }
+    println!("reproduced={}", !bad.is_empty());
+}
+
+use std::sync::Arc;
+use rs_opw_kinematics::tool::{Tool, Base};
+use rs_opw_kinematics::frame::Frame;
+
+pub fn euler_iso(e: &[f64], t: &[f64]) -> Iso { Iso { r: mm(&mm(&rz(e[0]), &ry(e[1])), &rz(e[2])), t: [t[0], t[1], t[2]] } }
+pub const SEEDS: [[f64; 6]; 4] = [[0.3, 0.4, -0.5, 0.6, 0.7, -0.8], [-1.1, 0.2, 0.3, -0.9, -0.6, 1.4], [2.0, -0.3, 0.4, 1.2, 1.0, 0.1], [-0.4, 0.6, -0.2, -2.2, 0.5, 2.5]];
+pub fn close_iso(a: &Iso, b: &Iso, tol: f64) -> bool { let (dt, dr) = iso_diff(a, b); dt <= tol && dr <= tol }
+pub fn same_mod_2pi(a: &[f64; 6], b: &[f64; 6], tol: f64) -> bool {
+    (0..6).all(|i| { let d = (a[i] - b[i]).rem_euclid(2.0 * std::f64::consts::PI); d.min(2.0 * std::f64::consts::PI - d) <= tol })
+}
+
+/// C09: wrapper=tool|base|frame method=<trait method> euler=3 shift=3 ; clauses of the property evaluated natively on a fixed robot
+fn c09(c: &Case) {
+    let (o, p) = opw_of(c);
+    let wrapper = c.s("wrapper"); let method = c.s("method");
+    let x = euler_iso(&c.v("euler"), &c.v("shift"));
+    let inner = Arc::new(OPWKinematics::new(p));
+    let xp = pose_of(&x);
+    let w: Arc<dyn Kinematics> = match wrapper.as_str() {
+        "tool" => Arc::new(Tool { robot: inner.clone(), tool: xp }),
+        "base" => Arc::new(Base { robot: inner.clone(), base: xp }),
+        "frame" => Arc::new(Frame { robot: inner.clone(), frame: xp }),
+        _ => { println!("error=wrapper {} cannot be constructed from outside the crate", wrapper); println!("reproduced=false"); return; }
+    };
+    let left = wrapper == "base";
+    let stack = |q: &[f64; 6]| -> Iso { let f = fk(&o, q); if left { compose(&x, &f) } else { compose(&f, &x) } };
+    let mut bad: Vec<String> = Vec::new();
+    for q in SEEDS.iter() {
+        let pose = stack(q); let pp = pose_of(&pose);
+        match method.as_str() {
+            "forward" => { if !close_iso(&iso_of(&w.forward(q)), &pose, 1e-7) { bad.push(format!("forward({:?}) != base*robot*tool", q)); } }
+            "forward_with_joint_poses" => {
+                let ch = chain(&o, q); let got = w.forward_with_joint_poses(q);
+                for i in 0..6 {
+                    let want = match wrapper.as_str() { "tool" => ch[i], "base" => compose(&x, &ch[i]), _ => if i == 5 { compose(&ch[i], &x) } else { ch[i] } };
+                    if !close_iso(&iso_of(&got[i]), &want, 1e-7) { bad.push(format!("link pose {} wrong", i)); }
+                }
+            }
+            "inverse" | "inverse_continuing" => {
+                let sols = if method == "inverse" { w.inverse(&pp) } else { w.inverse_continuing(&pp, q) };
+                for s in &sols { if !close_iso(&stack(s), &pose, 2e-6) { bad.push(format!("answer {:?} does not map back onto the request", s)); } }
+                if !sols.iter().any(|s| same_mod_2pi(s, q, 1e-5)) { bad.push(format!("originating joints {:?} not among the answers", q)); }
+                if method == "inverse_continuing" && !sols.is_empty() && !same_mod_2pi(&sols[0], q, 1e-5) { bad.push("previous joints realise the pose but are not the first answer".into()); }
+            }
+            "inverse_5dof" | "inverse_continuing_5dof" => {
+                let mut prev = *q; prev[5] = 1.7;
+                let sols = if method == "inverse_5dof" { w.inverse_5dof(&pp, 0.77) } else { w.inverse_continuing_5dof(&pp, &prev) };
+                let want6 = if method == "inverse_5dof" { 0.77 } else { 1.7 };
+                for s in &sols { if s[5] != want6 { bad.push(format!("5-DOF answer carries J6={} instead of the caller's {}", s[5], want6)); } }
+            }
+            "kinematic_singularity" => { if w.kinematic_singularity(q).is_some() != inner.kinematic_singularity(q).is_some() { bad.push("singularity report differs from the wrapped robot".into()); } }
+            "constraints" => { if w.constraints().is_some() != inner.constraints().is_some() { bad.push("constraints differ from the wrapped robot".into()); } }
+            _ => {}
+        }
+    }
+    bad.dedup();
+    for b in bad.iter().take(5) { println!("diff={}", b); }
+    println!("reproduced={}", !bad.is_empty());
+}
+
+use rs_opw_kinematics::parallelogram::Parallelogram;
+/// C16: driven, coupled, scaling, method ; property clauses evaluated natively on a fixed robot
+fn c16(c: &Case) {
+    let (o, p) = opw_of(c);
+    let (d, cp, sc) = (c.f("driven") as usize, c.f("coupled") as usize, c.f("scaling")); let method = c.s("method");
+    let inner = Arc::new(OPWKinematics::new(p));
+    let w = Parallelogram { robot: inner.clone(), scaling: sc, driven: d, coupled: cp };
+    let wfk = |q: &[f64; 6]| -> Iso { let mut a = *q; a[cp] -= sc * a[d]; fk(&o, &a) };
+    let mut bad: Vec<String> = Vec::new();
+    for q in SEEDS.iter() {
+        let pose = wfk(q); let pp = pose_of(&pose);
+        match method.as_str() {
+            "forward" => { if !close_iso(&iso_of(&w.forward(q)), &pose, 1e-7) { bad.push("forward != inner forward at the decoupled joints".into()); } }
+            "forward_with_joint_poses" => { let mut a = *q; a[cp] -= sc * a[d]; let ch = chain(&o, &a); let got = w.forward_with_joint_poses(q);
+                for i in 0..6 { if !close_iso(&iso_of(&got[i]), &ch[i], 1e-7) { bad.push(format!("link pose {} wrong", i)); } } }
+            "inverse" | "inverse_continuing" => {
+                let sols = if method == "inverse" { w.inverse(&pp) } else { w.inverse_continuing(&pp, q) };
+                if sols.is_empty() { bad.push("no answers for a pose produced by the wrapper's own forward".into()); }
+                for s in &sols { if !close_iso(&wfk(s), &pose, 2e-6) { bad.push(format!("answer {:?} does not map back onto the request through the wrapper forward", s)); } }
+            }
+            "inverse_5dof" | "inverse_continuing_5dof" => {
+                let sols = if method == "inverse_5dof" { w.inverse_5dof(&pp, q[5]) } else { w.inverse_continuing_5dof(&pp, q) };
+                for s in &sols { if dist(&wfk(s).t, &pose.t) > 2e-6 { bad.push(format!("5-DOF answer {:?} misses the tool point", s)); } }
+            }
+            _ => {}
+        }
+    }
+    bad.dedup();
+    for b in bad.iter().take(5) { println!("diff={}", b); }
     println!("reproduced={}", !bad.is_empty());
 }
